@@ -27,15 +27,15 @@ CLAIMED = {
          "reflect.DeepEqual over a value alphabet chosen to avoid gob's nil-vs-empty ambiguity is the equality; gob itself is trusted.",
          "2/C13"),
  "C15": ("reference-model monitor with complete deleter-fault enumeration per scenario, plus concurrent stress with conservation oracle",
-         "Fault enumeration inside exploration: each seeded incidence structure (with cache operations between labelling and invalidation) is rebuilt and run fault-free and once per delete position with an injected failure at that position, followed by recovery and retry; a hostile deleter labels another key from inside Delete; completeness, precision, returned count (vs. measured removals), error identity and no-panic are judged. Concurrent AddLabels/AddCache/Invalidate runs are judged at quiescence (nothing labelled survives; counts add up).",
+         "Fault enumeration inside exploration: each seeded incidence structure (with cache operations between labelling and invalidation) is rebuilt and run fault-free and once per delete position with an injected failure at that position, followed by recovery and retry; a hostile deleter labels another key from inside Delete; completeness, precision, returned count (vs. measured removals), error identity and no-panic are judged. Concurrent AddLabels/AddCache/Invalidate runs are judged at quiescence (nothing labelled survives; counts add up). A bulk family puts 1000-10009 keys under one label.",
          "Index model in c15_labels.go is the oracle; labels consumed by a successful invalidation are not re-applied by the workloads.",
          "2/C15"),
  "C17": ("offline checker over callback log and caller timestamps (ordering, exactly-once, non-overlap, sound monotonic-clock bracketing)",
-         "Exploration: seeded bursts, sequences and chain patterns (slow first run, caller queued on the lock) of 1..32 callers, 0..5 callbacks (one may be registered during a run), several SkipIntervals (also changed between phases); accepted calls run all registered callbacks once in order, rejected run none, groups never interleave, consecutive accepted calls are >= SkipInterval apart (bracketing inequality tightened by the end of the previous run), and a call that begins >= SkipInterval after every earlier call returned must be accepted. Also: callers with cancelled contexts, and a callback that panics (recovered by the caller) - the run counts as accepted, nothing is left locked.",
+         "Exploration: seeded bursts, sequences and chain patterns (slow first run, caller queued on the lock) of 1..32 callers, 0..5 callbacks (one may be registered during a run), several SkipIntervals (also changed between phases); accepted calls run all registered callbacks once in order, rejected run none, groups never interleave, consecutive accepted calls are >= SkipInterval apart (bracketing inequality tightened by the end of the previous run), and a call that begins >= SkipInterval after every earlier call returned must be accepted. Also: callers with cancelled contexts, and a callback that panics (recovered by the caller) - the run counts as accepted, nothing is left locked. Intervals include 900us and 20.9ms; a cascade family invalidates never-run Invalidators from inside a callback and with a context captured there.",
          "Only bracketing inequalities on the monotonic clock are used, so load cannot cause false alarms (it only reduces detection power).",
          "2/C17"),
  "C01": ("online monitor of builder [entry,exit] intervals over steered (seeded scheduler at every call-out) and free-running stress executions of the real Failover",
-         "Exploration: thousands of seeded schedules of 2..12 concurrent Gets over 1..3 keys across the configuration product, both APIs, fault injection, caller misbehaviour (buffer-reuse family), context-error and nil builder outcomes, slow builders with UpdateTTL=1ms; ObserveMutability on in a quarter of the cases; an online monitor flags any instant with two builders active for one key. Evidence counts contended runs and distinct schedule signatures.",
+         "Exploration: thousands of seeded schedules of 2..12 concurrent Gets over 1..3 keys across the configuration product, both APIs, fault injection, caller misbehaviour (buffer-reuse family), context-error and nil builder outcomes, slow builders with UpdateTTL=1ms; ObserveMutability on in a quarter of the cases; forced Gets issued with a context kept from an earlier build; once per run > 10000 builds in flight drain while one build is still parked; an online monitor flags any instant with two builders active for one key. Evidence counts contended runs and distinct schedule signatures.",
          "Interleavings inside library critical sections are not explored (atomic by construction); the steered executor uses runtime.Stack statuses and only ever yields 'inconclusive' on malfunction.",
          "2/C01"),
  "C02": ("offline provenance checker over recorded event logs with unique tokens; backend fault injection at every call index in turn",
